@@ -117,15 +117,25 @@ RespHdr(c) == HdrToks(c.outh, c.outhvals, c.tns, c.poly, TRUE, 1)
 \* ---- the equality the properties state: what XML cannot distinguish is identified
 RECURSIVE Norm(_, _)
 NormSeq(t, s) == [k \in 1..Len(s) |-> Norm(t, s[k])]
+MinLen(a, b) == IF a < b THEN a ELSE b
 Norm(t, v) ==
   IF v = Nil THEN Nil
   ELSE IF t.k = "prim" THEN (IF v[2] = "" /\ t.p \in {"ByteArray"} THEN Nil ELSE v)
   ELSE IF t.k = "attr" \/ v[1] = "leaf" THEN v          \* (a leaf where a structure is declared: an error marker of the driver)
   ELSE IF t.k = "arr" THEN <<"seq", NormSeq(t.of, v[2])>>
-  ELSE LET fl == FlatFields(t) IN
-       <<"obj", v[2], [k \in 1..Len(fl) |->
+  ELSE LET rt == Runtime(t, v)                          \* the value's own class when it is a registered subclass
+           fl == FlatFields(rt)
+           n  == MinLen(Len(fl), Len(v[3])) IN
+       <<"obj", v[2], [k \in 1..n |->
             IF fl[k].max > 1 THEN (IF v[3][k] = Nil \/ v[3][k][2] = <<>> THEN Nil ELSE <<"seq", NormSeq(fl[k].t, v[3][k][2])>>)
             ELSE Norm(fl[k].t, v[3][k])]>>
+\* what is left of a value when only its DECLARED class is transmitted (polymorphism disabled)
+RECURSIVE Proj(_, _)
+Proj(t, v) ==
+  IF v = Nil THEN Nil
+  ELSE IF v[1] = "seq" THEN <<"seq", [k \in 1..Len(v[2]) |-> Proj(IF t.k = "arr" THEN t.of ELSE t, v[2][k])]>>
+  ELSE IF t.k = "obj" /\ v[1] = "obj" THEN LET fl == FlatFields(t) IN <<"obj", t.name, [k \in 1..Len(fl) |-> Proj(fl[k].t, v[3][k])]>>
+  ELSE v
 \* arguments as delivered: one per declared argument
 NormArgs(c, vs) == [k \in 1..Len(c.args) |->
       IF c.args[k].max > 1 THEN (IF vs[k] = Nil \/ vs[k][2] = <<>> THEN Nil ELSE <<"seq", NormSeq(c.args[k].t, vs[k][2])>>)
